@@ -48,6 +48,52 @@ let to_case = function
   | List [Atom "CParamsValidate"; p] -> CParamsValidate (to_sparams p)
   | x -> bad "case" x
 
+let to_l1msg = function
+  | List [Atom "MSetPower"; s; v; p; u] -> MSetPower (to_z s, to_z v, to_z p, to_bool u)
+  | List [Atom "MRemoveValidator"; s; v] -> MRemoveValidator (to_z s, to_z v)
+  | List [Atom "MRemovePending"; s; v] -> MRemovePending (to_z s, to_z v)
+  | List [Atom "MCreateValidator"; v; k; mon; r; m; c; msd] -> MCreateValidator (to_z v, to_z k, to_z mon, to_dec r, to_dec m, to_dec c, to_z msd)
+  | List [Atom "MUpdateParams"; s; p] -> MUpdateParams (to_z s, to_sparams p)
+  | List [Atom "MUnjail"; v] -> MUnjail (to_z v)
+  | List [Atom "MOther"; s] -> MOther (to_z s)
+  | List [Atom "MTree"; s; t] -> MTree (to_z s, to_msg t)
+  | x -> bad "l1msg" x
+let to_block = function
+  | List [Atom "Build_block"; dt; abs; txs] -> { b_dt = to_z dt; b_absent = to_list to_z abs; b_txs = to_list (to_list to_l1msg) txs }
+  | x -> bad "block" x
+let to_genesis = function
+  | List [Atom "Build_genesis"; toks; a; b; c; d; e; f; g] ->
+    { g_tokens = to_list to_z toks; g_max_vals = to_z a; g_unbond_secs = to_z b; g_window = to_z c; g_min_signed_pc = to_z d;
+      g_jail_secs = to_z e; g_slash_down_bp = to_z f; g_slash_dbl_bp = to_z g }
+  | x -> bad "genesis" x
+let to_history = function
+  | List [Atom "Build_history"; g; bs] -> { h_genesis = to_genesis g; h_blocks = to_list to_block bs }
+  | x -> bad "history" x
+
+let tag_name t = match int_of_z t with
+  | 1 -> "H" | 2 -> "TX" | 3 -> "UPD" | 4 -> "HALT" | 5 -> "COMET" | 6 -> "VAL" | 7 -> "DEL" | 8 -> "IDX" | 9 -> "LAST"
+  | 10 -> "LTOT" | 11 -> "UBQ" | 12 -> "PARAMS" | 13 -> "SIGN" | 14 -> "PEND" | 15 -> "POA" | 16 -> "POOL" | 17 -> "SUPPLY"
+  | 18 -> "QPOWER" | 19 -> "SEQ" | 20 -> "INITUPD" | n -> "T" ^ string_of_int n
+
+let print_row (Row (t, fs)) =
+  print_string (tag_name t);
+  List.iter (fun f -> print_char ' '; print_string (string_of_z f)) fs;
+  print_newline ()
+
+let run_histories () =
+  let i = ref 0 in
+  try
+    while true do
+      let line = input_line stdin in
+      if String.length line > 0 && line.[0] <> '#' then begin
+        Printf.printf "== %d\n" !i;
+        (try List.iter print_row (run_history (to_history (parse line)))
+         with Parse_error m -> print_endline ("PARSE-ERROR " ^ m));
+        incr i
+      end
+    done
+  with End_of_file -> ()
+
 let string_of_outcome = function
   | OPass -> "pass"
   | OErr (cs, c) -> Printf.sprintf "err %s %s" (string_of_z cs) (string_of_z c)
@@ -69,4 +115,5 @@ let run_cases () =
 let () =
   match Array.to_list Sys.argv with
   | [_; "cases"] -> run_cases ()
+  | [_; "hist"] -> run_histories ()
   | _ -> prerr_endline "usage: poa_model cases < cases.txt"; exit 2
